@@ -95,3 +95,52 @@ void harness_prestat(void) { U32 r, rp = gptr(8), np = gptr(8), len = nd8() % 9;
 void harness_p1(void) { U32 a; setup(); a = do_open(); V_ASSUME(a != 0xFFFFFFFFu); V_WITNESS("end"); }
 void harness_p2(void) { U32 a, b; setup(); a = do_open(); V_ASSUME(a != 0xFFFFFFFFu); b = do_open(); V_ASSUME(b != 0xFFFFFFFFu); V_WITNESS("end"); }
 #endif
+
+/* ---------------------------------------------------------------- one step from any reachable table shape
+ * The table is built with the real wasiFileDescriptorAdd: three standard streams, the preopen, and TL-4 further
+ * slots of which those selected by the compile-time mask TMASK are live files (native fd 100+k, own path) and the
+ * others are closed slots (exactly the state fd_close leaves: no native fd, no DIR, no path).  Capacity therefore
+ * follows the real growth policy (1,2,4,7,11): TL = 4, 7, 11 are the "table exactly full" shapes.  Then ONE call with
+ * arbitrary arguments; every earlier history that ends in this shape is covered by the step. */
+#ifndef TL
+#define TL 7
+#endif
+#ifndef TMASK
+#define TMASK 5
+#endif
+#define TMAX 13
+static int s_live[TMAX]; static int s_fd[TMAX]; static char* s_path[TMAX]; static DIR* s_dir[TMAX];
+static void shape(void) { int k; U32 w; bool ok; setup();
+    for (k = 4; k < TL; k++) {
+        if ((TMASK >> (k - 4)) & 1) { ok = wasiFileDescriptorAdd(100 + k, "/d/x", &w); } else { ok = wasiFileDescriptorAdd(-1, NULL, &w); }
+        V_ASSUME(ok); V_ASSERT(w == (U32)k, "harness: slots are numbered in order"); }
+    V_ASSERT(wasi.fds.length == TL, "harness: table length");
+    for (k = 0; k < TMAX; k++) { s_live[k] = 0; s_fd[k] = -1; s_path[k] = 0; s_dir[k] = 0; }
+    for (k = 0; k < TL; k++) { s_live[k] = k < 4 || ((TMASK >> (k - 4)) & 1); s_fd[k] = wasi.fds.fds[k].fd; s_path[k] = wasi.fds.fds[k].path; s_dir[k] = wasi.fds.fds[k].dir; }
+    nlog = 0; stale_use = 0; }
+static void others_untouched(U32 except) { int k;
+    for (k = 0; k < TL; k++) if ((U32)k != except && s_live[k]) {
+        V_ASSERT((U32)k < wasi.fds.length, "a live descriptor stays in the table");
+        V_ASSERT(wasi.fds.fds[k].fd == s_fd[k] && wasi.fds.fds[k].path == s_path[k] && wasi.fds.fds[k].dir == s_dir[k], "a live descriptor keeps its native fd, path and DIR across another descriptor's open/close"); } }
+void harness_step_open(void) { U32 pp, fp, r; int nfd; shape(); pp = gptr(1); fp = gptr(4); gdata[pp] = 'f';
+    r = wasi_snapshot_preview1__path_open(0, pre_wfd, 0, pp, 1, nd32() & 0xF, nd64(), 0, 0, fp);
+    if (r == 0) { U32 n = (U32)gle(fp, 4); WasiFileDescriptor d;
+        V_ASSERT(n < wasi.fds.length && wasi.fds.length <= wasi.fds.capacity, "returned number lies inside the table");
+        V_ASSERT(n >= TL || !s_live[n < TMAX ? n : 0], "descriptor returned by path_open does not alias a live descriptor");
+        nfd = next_native_fd - 1;
+        V_ASSERT(wasiFileDescriptorGet(n, &d) && d.fd == nfd, "the returned number designates the file that was just opened");
+        others_untouched(n);
+        V_WITNESS("opened"); }
+    else others_untouched(0xFFFFFFFFu);
+    V_ASSERT(!stale_use, "no native call on a released native descriptor");
+    V_WITNESS("end"); }
+#ifndef TY
+#define TY 5
+#endif
+void harness_step_close(void) { U32 r; WasiFileDescriptor d; shape();
+    r = wasi_snapshot_preview1__fd_close(0, TY);
+    if (TY < TL && s_live[TY < TMAX ? TY : 0]) {
+        if (r == 0) { V_ASSERT(!wasiFileDescriptorGet(TY, &d), "a closed descriptor is invalid afterwards"); V_WITNESS("closed"); }
+        others_untouched(TY); }
+    else { V_ASSERT(r == 8 && nlog == 0, "closed or never-issued descriptor: EBADF, no host call"); others_untouched(0xFFFFFFFFu); V_WITNESS("dead"); }
+    V_WITNESS("end"); }
